@@ -17,7 +17,7 @@ REAL = ["everything in the package: ElectionProfile, Election (constructor, coun
 STUB = ["process freshness: os.fork from a zygote that imported droop and never built an Election",
         "sys.stdout sink", "SIGINT for interrupted predecessors: the step-clock injector of the C19 engine"]
 
-RULE_TEXT = ("random-history arm: seeded sessions of 1-6 (5 %: 7-12) predecessor operations (elections counted and rendered in "
+RULE_TEXT = ("random-history arm: seeded sessions of 1-6 (5 %: 7-12, 1 %: 20-40) predecessor operations (elections counted and rendered in "
              "an ordered, possibly repeating subset of report/dump/json; counts interrupted at line event k and "
              "rendered with intr=True; help/usage requests; failing parses) followed by the target election; half of "
              "the predecessors use the target's value class with other parameters, 1/8 repeat the target exactly; "
